@@ -8,7 +8,7 @@
 -/
 import AITB.Props.C03Basic
 
-namespace AITB.POMDP
+namespace AITB.POMDP3
 open AITB.MDP
 
 /-- convex + positively homogeneous on unnormalised beliefs, depending on the first `S` coordinates only -/
@@ -336,4 +336,4 @@ theorem promisingBackup_upper (m : POMDP) (hv : Valid m) (V : (Nat → Rat) → 
   exact le_trans (promisingVal_ge_qval m hv V x a (skip a) (iv a) (h a ha))
     (maxTo_ge (m.A - 1) (fun a => promisingVal m x a (skip a) (iv a)) a (by omega))
 
-end AITB.POMDP
+end AITB.POMDP3
